@@ -599,7 +599,17 @@ def rule_section_tables(repo: Repo) -> List[Ob]:
     conds = [n for n in walk_no_nested(helper.node) if isinstance(n, ast.If) and "isinstance" in src(n.test) and ("DistAssignment" in src(n.test) or "PolyAssignment" in src(n.test))]
     ok2 = None
     if len(conds) >= 2:
-        ok2 = all("TrueCond" in src(n.test) for n in conds)
+        from .validate import helper_bodies
+        verdicts = []
+        for n in conds:
+            text = src(n.test) + " ".join(src(h.node) for h in helper_bodies(repo, helper, n.test))
+            if "TrueCond" in text:
+                verdicts.append(True)
+            else:
+                # a call that is not isinstance(...) and was not resolved may hide the test
+                other = [c for c in ast.walk(n.test) if isinstance(c, ast.Call) and call_name(c) != "isinstance"]
+                verdicts.append(None if other else False)
+        ok2 = False if False in verdicts else None if None in verdicts else True
     _emit(obs, "M-section-tables", f"{UIT}::{helper.qualname}::unconditioned-only", UIT, helper.node.lineno, helper.qualname, ok2,
           "only unconditioned draws / constants are recorded as the meaning of a variable" if ok2 else ("a conditioned assignment can be recorded as the value of a functional argument" if ok2 is False else "recording tests not recognised"))
     return obs
